@@ -105,7 +105,9 @@ where
                     .periodic_images(position, 3, false)
                     .map(|p| self.shape.transform(&p))
                 {
-                    sum += shape1.energy(&shape2);
+                    // Each pair with a periodic image is found twice, once from each of the
+                    // shapes, while the pairs within the cell above are only found once.
+                    sum += 0.5 * shape1.energy(&shape2);
                 }
             }
         }
